@@ -23,7 +23,7 @@ def nonterminating_split(case):
     return False
 
 
-def share_sim_oversale(rows_sorted):
+def share_sim_oversale(rows_sorted, init_sh=None):
     """declarative share ledger in exact arithmetic (shares do not depend on
     money): is some sale larger than the holdings / does a whole-number
     reverse split leave a fraction?"""
@@ -31,6 +31,11 @@ def share_sim_oversale(rows_sorted):
     afs = sorted(set(core.af_id(r["af"])[0] for r in rows_sorted if r.get("af") is not None))
     if not afs:
         afs = ["default"]
+    if init_sh is not None:
+        # an opening position: the default affiliate holds shares before the first row
+        bal[core.af_id("")[0]] += init_sh
+        if core.af_id("")[0] not in afs:
+            afs = sorted(afs + [core.af_id("")[0]])
     for r in rows_sorted:
         a = r["act"]
         af = core.af_id(r["af"] if r.get("af") is not None else "")[0]
@@ -159,7 +164,8 @@ def run(res, ctx):
                 if rejected and cls in (4, 5, 10, 15, 16) and not nonterminating_split(r["case"]):
                     rows = [x for x in r["case"]["rows"] if x["sec"] == sname]
                     rows_sorted = [x for _, x in sorted(enumerate(rows), key=lambda p: (p[1]["sd"], p[0]))]
-                    if share_sim_oversale(rows_sorted) is None:
+                    init0 = r["case"].get("inits", {}).get(sname)
+                    if share_sim_oversale(rows_sorted, init0[0][1] if init0 else None) is None:
                         res.violation("failing-input", "security %s rejected (%s) although no sale exceeds the holdings and no whole-number reverse split leaves a fraction" % (sname, core.REJ_NAMES.get(cls)),
                                       {"input": r["hc"], "security": sname, "actual_impl": so.get("msg")})
             if nontriv and r["hash"] not in seen:
@@ -176,9 +182,20 @@ def run(res, ctx):
     else:
         nvis = 25 if tier == "quick" else 150
         tried = 0
-        while vis["cases"] < nvis and tried < nvis * 20:
+        # fixed corpus first: a security rejected at its very FIRST transaction (its table has no
+        # data rows), alone, next to a healthy security, and rejected at a later row
+        def _row(sec, day, act, sh, aps):
+            return {"sec": sec, "td": core.BASE_DAY + day, "sd": core.BASE_DAY + day + 2, "act": act, "sh": core.D(sh),
+                    "aps": core.D(aps), "com": None, "cur": None, "rate": None, "af": None}
+        corpus = [
+            {"rows": [_row("FIRST", 10, "Sell", 5, 3)], "inits": {}},
+            {"rows": [_row("FIRST", 10, "Sell", 5, 3), _row("GOOD", 11, "Buy", 5, 3), _row("GOOD", 50, "Sell", 2, 4)], "inits": {}},
+            {"rows": [_row("LATE", 10, "Buy", 5, 3), _row("LATE", 20, "Sell", 2, 4), _row("LATE", 30, "Sell", 9, 4)], "inits": {}},
+            {"rows": [_row("AAA", 10, "Sell", 1, 1), _row("BBB", 10, "Sell", 1, 1)], "inits": {}},
+        ]
+        while (corpus or vis["cases"] < nvis) and tried < nvis * 20:
             tried += 1
-            c = gen.gen_case(rng, p_invalid=rng.choice([0.5, 0.15]))
+            c = corpus.pop(0) if corpus else gen.gen_case(rng, p_invalid=rng.choice([0.5, 0.15]))
             r = corecheck.run_cases(ctx, [c], render=True)[0]
             i = r["impl"]
             if i["status"] != "ok":
